@@ -165,10 +165,11 @@ def exact_obligations(e, n, group=None):
             continue
         # divisions: no divisor can vanish under the precondition on this path
         if p.nonzero and (group is None or len(group) < 4 or group[2] == 0):
-            e.prove(tag + ":divisors-nonzero",
-                    "on this path no divisor of the construction is zero for strictly increasing abscissae (%d divisions)" % len(p.nonzero),
-                    assum, z3.And(*[d != 0 for d in p.nonzero]), dom_name="real", functions=FUNCS, witness_terms=wt,
-                    role="spline-division-by-zero", replay=replay, prefer=nice)
+            e.prove_cases(tag + ":divisors-nonzero",
+                          "on this path no divisor of the construction is zero for strictly increasing abscissae (%d divisions; each "
+                          "divisor under the path condition and the quotients defined before it)" % len(p.nonzero),
+                          pre + list(p.conds), sl.divisor_cases(p), dom_name="real", functions=FUNCS, witness_terms=wt,
+                          role="spline-division-by-zero", replay=replay, prefer=nice)
         goals = []
         if len(segs) != n - 1:
             goals.append(("segments", z3.BoolVal(False)))
